@@ -11,6 +11,8 @@
                                               that can be received from, an integer or an iterator function (up to as many
                                               variables as it yields)
      tswitch   switch x.(type) { case T, U: } x is of interface type; a concrete case type implements it; no duplicates
+     assert    x.(T), v, ok := x.(T)          x is of interface type; a concrete T implements it (a method with a pointer receiver
+                                              or another signature does not count)
      send      ch <- v                        ch can be sent to; v is assignable to its element type
      incdec    x++                            x is numeric
 
@@ -78,9 +80,11 @@ Rangeables == {R("vsl", "slice", 2), R("varr", "array", 2), R("vparr", "ptrarray
 Range(x, nvars) == IF x.maxvars < 0 THEN "notrangeable" ELSE IF nvars > x.maxvars THEN "toomanyvars" ELSE "ok"
 
 (* ---- type switch ---- *)
-\* operand interfaces: any, error, Stringer; case types: int, string, error (interface), MyErr (has Error()), S (has String()), SE (has both)
+\* operand interfaces: any, error, Stringer; case types: int, string, error (interface), MyErr (has Error()), S (has String()), SE (has both),
+\* PE (Error() on the pointer receiver: *PE implements error, PE does not), WE (Error(int) string: the wrong signature)
+CaseTypes == {"int", "string", "error", "MyErr", "S", "SE", "Stringer", "PE", "*PE", "WE"}
 Implements(t, iface) == CASE iface = "any" -> TRUE
-                          [] iface = "error" -> t \in {"error", "MyErr", "SE"}
+                          [] iface = "error" -> t \in {"error", "MyErr", "SE", "*PE"}
                           [] iface = "Stringer" -> t \in {"S", "SE", "Stringer"}
                           [] OTHER -> FALSE
 IsIfaceT(t) == t \in {"any", "error", "Stringer"}
@@ -88,6 +92,10 @@ TSwitch(x, cts) ==
   IF ~IsIfaceT(x.ty) THEN "notinterface"
   ELSE IF \E i \in 1..Len(cts) : ~IsIfaceT(cts[i]) /\ ~Implements(cts[i], x.ty) THEN "impossible"
   ELSE IF \E i, j \in 1..Len(cts) : i < j /\ cts[i] = cts[j] THEN "dup"
+  ELSE "ok"
+TAssert(x, t) ==
+  IF ~IsIfaceT(x.ty) THEN "notinterface"
+  ELSE IF ~IsIfaceT(t) /\ ~Implements(t, x.ty) THEN "impossible"
   ELSE "ok"
 verr == O("verr", "var", "error", 0)
 vstr == O("vstr", "var", "Stringer", 0)
@@ -106,7 +114,8 @@ Points ==
   {[kind |-> "cond", ctx |-> c, x |-> x] : c \in {"if", "for"}, x \in CondOps}
   \cup {[kind |-> "switch", tag |-> t, cases |-> cs2] : t \in {NoTag, vi, vs, vmy, vf, va, vb}, cs2 \in SeqsUpTo(CaseOps, 2) \ {<<>>}}
   \cup {[kind |-> "range", x |-> x, nvars |-> n] : x \in Rangeables, n \in 0..2}
-  \cup {[kind |-> "tswitch", x |-> x, cts |-> c] : x \in {va, verr, vstr, vi}, c \in SeqsUpTo({"int", "string", "error", "MyErr", "S", "SE", "Stringer"}, 2) \ {<<>>}}
+  \cup {[kind |-> "tswitch", x |-> x, cts |-> c] : x \in {va, verr, vstr, vi}, c \in SeqsUpTo(CaseTypes, 2) \ {<<>>}}
+  \cup {[kind |-> "assert", x |-> x, t |-> t, form |-> f] : x \in {va, verr, vstr, vi}, t \in CaseTypes, f \in {"single", "commaok"}}
   \cup {[kind |-> "send", ch |-> ch, v |-> v] : ch \in {x \in Rangeables : x.kind \in {"chan", "recvchan", "sendchan", "int", "slice"}}, v \in {c1, cf, cs, vi, vs, nil}}
   \cup {[kind |-> "incdec", x |-> x] : x \in {vi, vf, vs, vb, vmy}}
 VARIABLE pt
@@ -117,9 +126,12 @@ Res == CASE pt.kind = "cond" -> (IF Cond(pt.x) THEN "ok" ELSE "notboolean")
          [] pt.kind = "range" -> Range(pt.x, pt.nvars)
          [] pt.kind = "tswitch" -> TSwitch(pt.x, pt.cts)
          [] pt.kind = "send" -> Send(pt.ch, pt.v)
+         [] pt.kind = "assert" -> TAssert(pt.x, pt.t)
          [] OTHER -> IncDec(pt.x)
 \* laws: adding a case never turns a rejected switch into an accepted one; fewer loop variables never hurt
 Monotone == /\ (pt.kind = "switch" /\ Len(pt.cases) = 2 /\ Res = "ok") => Switch(pt.tag, <<pt.cases[1]>>) = "ok"
             /\ (pt.kind = "range" /\ pt.nvars > 0 /\ Res = "ok") => Range(pt.x, pt.nvars - 1) = "ok"
+\* a type that can be asserted is a possible type-switch case and the other way round
+AssertIsCase == pt.kind = "assert" => (Res = "ok" <=> TSwitch(pt.x, <<pt.t>>) = "ok")
 Emit == PrintT(ToJson([pt |-> pt, res |-> Res]))
 =============================================================================
